@@ -2,8 +2,8 @@
 From Coq Require Import ZArith List.
 From Coq Require Extraction.
 From Coq Require Import ExtrOcamlBasic.
-From C05 Require Import Model Checker.
+From C05 Require Import Model Checker ExtModel.
 Extraction Language OCaml.
 Cd "ocaml".
-Extraction "model.ml" mk_tables dump_pol2log dump_plus1 op1 op2 op3 arr dot tables_ok fg_ok.
+Extraction "model.ml" mk_tables dump_pol2log dump_plus1 op1 op2 op3 arr dot tables_ok fg_ok ext_opZ.
 Cd "..".
